@@ -13,13 +13,41 @@ import time
 import traceback
 
 
+def source_hash() -> str:
+  """sha1 over the non-test sources of the observed mujoco_warp checkout."""
+  import hashlib
+
+  root = os.path.join(os.environ.get("MJWARP_REPO", "/repo"), "mujoco_warp", "_src")
+  h = hashlib.sha1()
+  for fn in sorted(os.listdir(root)):
+    if fn.endswith(".py") and not fn.endswith("_test.py"):
+      with open(os.path.join(root, fn), "rb") as f:
+        h.update(fn.encode())
+        h.update(f.read())
+  return h.hexdigest()[:12]
+
+
 def setup_warp(mode: str):
   import warp as wp
 
   from mon import core
 
-  cache = os.path.join(core.VERIF, ".cache", mode)
-  os.makedirs(cache, exist_ok=True)
+  # one kernel cache per (build mode, content of the observed source tree): Warp's module hash misses some
+  # dependencies (e.g. wp.func objects only referenced through wp.tile_map), so a cache shared between
+  # different source trees could serve stale kernels.  Caches older than 3 h are pruned beyond the newest 4 per mode.
+  cache = os.path.join(core.VERIF, ".cache", f"{mode}-{source_hash()}")
+  if not os.path.isdir(cache):
+    os.makedirs(cache, exist_ok=True)
+    try:
+      import shutil
+
+      root = os.path.join(core.VERIF, ".cache")
+      old = sorted((d for d in os.listdir(root) if d.startswith(mode + "-")), key=lambda d: os.path.getmtime(os.path.join(root, d)))
+      for d in old[:-4]:
+        if time.time() - os.path.getmtime(os.path.join(root, d)) > 3 * 3600:  # never a cache a running check may use
+          shutil.rmtree(os.path.join(root, d), ignore_errors=True)
+    except Exception:
+      pass
   wp.config.kernel_cache_dir = cache
   wp.config.quiet = True
   if "debug" in mode:
